@@ -307,6 +307,104 @@ fn gen_case(cur: &mut Cursor) -> Value {
     json!({"entry": entry, "text": text, "fen": fen})
 }
 
+/// Texts aimed at a generated position: UCI of pseudo-legal moves (legal or not), reference SAN texts and their two-file
+/// pawn-capture forms, and UCI lists that go on after a pseudo-legal but illegal token as if it had been played
+/// (preferring to take the king next), so that whatever an accepting parser lets through is followed up.
+fn gen_pos_case(cur: &mut Cursor) -> Value {
+    let (pos, src) = gen_position(cur);
+    let entry = cur.pick(&["from_uci", "from_san", "from_san", "uci_list", "uci_list"]);
+    let legal = pos.legal();
+    let pseudo = pos.pseudo_legal();
+    let kind = cur.below(8);
+    let text = if pseudo.is_empty() {
+        alphabet_string(cur, MOVE_ALPHABET, 6)
+    } else {
+        match entry {
+            "from_uci" => {
+                let t = pseudo[cur.below(pseudo.len())].uci();
+                match kind {
+                    0..=4 => t,
+                    5 | 6 => mutate(cur, &t, MOVE_ALPHABET),
+                    _ => multibyte_mix(cur, &t),
+                }
+            }
+            "from_san" => {
+                let m = if legal.is_empty() || cur.chance(40) { pseudo[cur.below(pseudo.len())] } else { legal[cur.below(legal.len())] };
+                let full = pos.san(&m, &pseudo);
+                let is_pawn_capture = m.man.1 == Pc::P && file_of(m.from) != file_of(m.to);
+                match kind {
+                    0 | 1 if is_pawn_capture => {
+                        // "cd", "cxd", "cd6"
+                        let (a, b) = ((b'a' + file_of(m.from) as u8) as char, (b'a' + file_of(m.to) as u8) as char);
+                        match cur.below(3) {
+                            0 => format!("{}{}", a, b),
+                            1 => format!("{}x{}", a, b),
+                            _ => format!("{}{}{}", a, b, (b'1' + rank_of(m.to) as u8) as char),
+                        }
+                    }
+                    0..=3 => full,
+                    4 => grammar_san(cur, &pos).text(),
+                    5 | 6 => mutate(cur, &full, MOVE_ALPHABET),
+                    _ => multibyte_mix(cur, &full),
+                }
+            }
+            _ => {
+                let mut p = pos.clone();
+                let n = 1 + cur.below(6);
+                let mut toks: Vec<String> = Vec::new();
+                let mut off_the_rails = false;
+                for _ in 0..n {
+                    let ps = p.pseudo_legal();
+                    if ps.is_empty() {
+                        break;
+                    }
+                    let l: Vec<RefMove> = ps.iter().filter(|m| !p.apply(m).in_check(p.side)).cloned().collect();
+                    let king_takes: Vec<RefMove> = ps.iter().filter(|m| matches!(p.b[m.to as usize], Some((_, Pc::K)))).cloned().collect();
+                    let m = if off_the_rails && !king_takes.is_empty() && cur.chance(200) {
+                        king_takes[cur.below(king_takes.len())]
+                    } else if l.len() < ps.len() && cur.chance(70) {
+                        let bad: Vec<RefMove> = ps.iter().filter(|m| !l.contains(m)).cloned().collect();
+                        off_the_rails = true;
+                        bad[cur.below(bad.len())]
+                    } else if !l.is_empty() && !off_the_rails {
+                        l[cur.below(l.len())]
+                    } else {
+                        ps[cur.below(ps.len())]
+                    };
+                    toks.push(m.uci());
+                    p = p.apply(&m);
+                    if p.king_sq(Col::W).is_none() && p.king_sq(Col::B).is_none() {
+                        break;
+                    }
+                }
+                let joined = toks.join(cur.pick(&[" ", " ", "  ", "\t", "\n"]));
+                match kind {
+                    0..=5 => joined,
+                    6 => mutate(cur, &joined, MOVE_ALPHABET),
+                    _ => multibyte_mix(cur, &joined),
+                }
+            }
+        }
+    };
+    json!({"entry": entry, "text": text, "fen": pos.fen(), "src": src})
+}
+
+fn check_pos_case(case: &Value, stats: &mut Stats) -> CheckResult {
+    let fen = case["fen"].as_str().unwrap_or("");
+    let p = ref_from_fen(fen).map_err(|e| Failure::new(format!("harness: bad case fen {:?}: {}", fen, e)))?;
+    if !p.is_valid() || p.normalised() != p {
+        stats.skip("case_not_reference_valid");
+        return Ok(());
+    }
+    if Board::try_from(raw_from_ref(&p)).is_err() {
+        stats.skip("gate_rejected_reference_valid_position");
+        return Ok(());
+    }
+    stats.label_if(p.ep.is_some(), "ep_mark");
+    stats.label_if(p.in_check(p.side), "in_check");
+    check_case(case, stats)
+}
+
 fn cur_pick_str(cur: &mut Cursor) -> &'static str {
     cur.pick(&["e4", "w", "b", "K", "KQkq", "-", "a1", "h8", ".", "Kq", ""])
 }
@@ -418,15 +516,18 @@ pub fn property() -> Property {
     Property {
         id: "C12",
         rule: "Strings for 11 entry points (Board::from_fen, RawBoard::from_fen, uci::Move::from_str, Move::from_uci*/semilegal/legal, \
-               san::Move::from_str, Move::from_san, MoveChain::push_uci_list/from_uci_list, Coord, Cell, Color, CastlingRights), in six \
-               positions where one is needed. Generated: grammar FEN/SAN, canonical texts with 1-2 edits (insert/delete/replace/transpose/ \
+               san::Move::from_str, Move::from_san, MoveChain::push_uci_list/from_uci_list, Coord, Cell, Color, CastlingRights), in eight \
+               fixed positions where one is needed. Generated: grammar FEN/SAN, canonical texts with 1-2 edits (insert/delete/replace/transpose/ \
                truncate/duplicate), multi-byte substitutions (2-, 3-, 4-byte characters so that byte lengths coincide with valid lengths), \
                alphabet strings, arbitrary scalar values, inputs up to ~10 kB; very_long_inputs: UCI lists of 132,000-264,000 legal plies \
                (one position recurring 33,000-66,000 times) and megabyte texts; exhaustive: every string of length <= 3 over a 25-symbol \
                alphabet (incl. multi-byte) for every entry point. Oracle: no panic (catch_unwind; aborts attributed by the panic hook in the \
                checked build) and for every Ok(v): parse(format(v)) == Ok(v); for UCI lists the chain rebuilt from its own UCI text is \
                equal and the error position equals the number of moves pushed. Non-trivial = accepted, or rejected beyond the first-line \
-               length/emptiness checks, or non-ASCII; distinct by (entry, text, position).",
+               length/emptiness checks, or non-ASCII; distinct by (entry, text, position). generated_positions: the position-dependent entry points in \
+               generated positions (19 sources) with texts aimed at the position: UCI of pseudo-legal moves legal or not, reference SAN and \
+               two-file pawn-capture forms, UCI lists that continue after an illegal token as if it had been played (taking the king when \
+               possible), each also mutated; same oracle.",
         assumptions: &["panics are observed through catch_unwind; non-unwinding aborts through the panic hook + parent process"],
         subchecks: vec![
             SubCheck {
@@ -446,6 +547,15 @@ pub fn property() -> Property {
                     r#"{"entry":"from_san","text":"N€","fen":"rnbqkbnr/pppppppp/8/8/8/8/PPPPPPPP/RNBQKBNR w KQkq - 0 1"}"#,
                     r#"{"entry":"uci_list","text":"e2e4 aé4","fen":"rnbqkbnr/pppppppp/8/8/8/8/PPPPPPPP/RNBQKBNR w KQkq - 0 1"}"#,
                 ],
+                exhaustive: false,
+            },
+            SubCheck {
+                name: "generated_positions",
+                driver: Driver::Generated { gen: gen_pos_case, genome_len: 320, quick: 3_000_000, thorough: 24_000_000 },
+                check: check_pos_case,
+                configs: Configs::Both,
+                required: &["accepted", "deep_rejection", "entry:from_uci", "entry:from_san", "entry:uci_list", "ep_mark", "in_check"],
+                regressions: &[],
                 exhaustive: false,
             },
             SubCheck {
